@@ -8,6 +8,7 @@ complex or arbitrarily nested, as strings.
 """
 from __future__ import annotations
 
+import re
 from inspect import iscoroutine
 from io import BytesIO
 from sys import exc_info
@@ -167,10 +168,18 @@ def escapedCDATA(data: Union[bytes, str]) -> bytes:
     return data.replace(b"]]>", b"]]]]><![CDATA[>")
 
 
+# The ways an HTML tokenizer ends a comment: "-->" and "--!>".
+_commentEnd = re.compile(rb"--(!?)>")
+
+
 def escapedComment(data: Union[bytes, str]) -> bytes:
     """
-    Within comments the sequence C{-->} can be mistaken as the end of the comment.
-    To ensure consistent parsing and valid output the sequence is replaced with C{--&gt;}.
+    Within comments the sequences C{-->} and C{--!>} can be mistaken as the end
+    of the comment.  To ensure consistent parsing and valid output the C{>} of
+    those sequences is replaced with C{&gt;}, giving C{--&gt;} and C{--!&gt;}.
+    A comment that starts with C{>} or C{->} would be ended by that C{>}
+    (C{<!-->} and C{<!--->} are complete, empty comments to an HTML parser), so
+    that C{>} is replaced too.
     Furthermore, whitespace is added when a comment ends in a dash. This is done to break
     the connection of the ending C{-} with the closing C{-->}.
 
@@ -181,7 +190,9 @@ def escapedComment(data: Union[bytes, str]) -> bytes:
     """
     if isinstance(data, str):
         data = data.encode("utf-8")
-    data = data.replace(b"-->", b"--&gt;")
+    data = _commentEnd.sub(rb"--\1&gt;", data)
+    if data.startswith((b">", b"->")):
+        data = data.replace(b">", b"&gt;", 1)
     if data and data[-1:] == b"-":
         data += b" "
     return data
